@@ -691,6 +691,14 @@ func TestC15Files(t *testing.T) {
 				C15FSOp{Op: rapid.SampledFrom([]string{"remove", "remove", "touch", "write"}).Draw(rt, "tcchange"), Name: nm, Root: rapid.IntRange(0, 1).Draw(rt, "tcroot")},
 				C15FSOp{Op: "load", Name: nm}, C15FSOp{Op: "render", Name: nm})
 		}
+		if rapid.IntRange(0, 3).Draw(rt, "samemtime") == 0 {
+			// a file is read, then rewritten (same length) under its old modification time; with
+			// the cache off (or for a name not cached yet) the next read goes to the file
+			nm := rapid.IntRange(0, len(c15FSNames)-1).Draw(rt, "smname")
+			c.Ops = append(c.Ops, C15FSOp{Op: "write", Name: nm}, C15FSOp{Op: "cache", On: rapid.Bool().Draw(rt, "smcache1")}, C15FSOp{Op: "load", Name: nm},
+				C15FSOp{Op: "cache", On: false}, C15FSOp{Op: "rewrite", Name: nm}, C15FSOp{Op: "load", Name: nm}, C15FSOp{Op: "render", Name: nm},
+				C15FSOp{Op: "rewrite", Name: nm}, C15FSOp{Op: "render", Name: nm}, C15FSOp{Op: "cache", On: true})
+		}
 		for i := 0; i < n; i++ {
 			op := C15FSOp{Name: rapid.IntRange(0, len(c15FSNames)-1).Draw(rt, "name"), On: rapid.IntRange(0, 3).Draw(rt, "on") != 0, Root: rapid.IntRange(0, 1).Draw(rt, "root")}
 			if rapid.IntRange(0, 2).Draw(rt, "fewnames") == 0 {
